@@ -70,6 +70,18 @@ static inline bitref_t *bitref_t__op_assign(bitref_t *r, _Bool x) { *r->p = x; r
 typedef struct { char *data; size_t size; size_t cap; long absid; } str_t;
 static inline size_t str_t__size(str_t *s) { return s->size; }
 static inline size_t str_t__length(str_t *s) { return s->size; }
+/* std::string(const char *): the characters up to the first NUL of the C string -- how many that are is not known to
+ * the model (contents of the source are not tracked through c_str()): an arbitrary length within the model capacity;
+ * append(ptr, n) appends n characters; data() is the buffer */
+#ifndef STR_CSTR_CAP
+#define STR_CSTR_CAP 128
+#endif
+static inline void str_t__ctor_1(str_t *s, const char *cstr)
+{ (void)cstr; size_t n; __CPROVER_assume(n <= STR_CSTR_CAP); s->data = (char *)__verif_new_array(1, STR_CSTR_CAP + 64); s->size = n; s->cap = STR_CSTR_CAP + 64; s->absid = 0; }
+static inline str_t *str_t__append(str_t *s, const char *p, size_t n)
+{ __CPROVER_assert(n == 0 || __CPROVER_r_ok(p, n), "string::append: source holds n characters");
+  __CPROVER_assert(n <= s->cap - s->size, "model limit: string capacity"); s->size = s->size + n; return s; }
+static inline const char *str_t__data(str_t *s) { return s->data; }
 static inline _Bool str_t__empty(str_t *s) { return s->size == 0; }
 static inline void str_t__clear(str_t *s) { s->size = 0; }
 static inline char *str_t__op_index(str_t *s, size_t i)
